@@ -1,6 +1,6 @@
-\* pathdb, repaired design, thorough: 2 restarts (stale journals), separate Journal action
-\* (4 keys, 7 paths per trie), <= 3 updates (forks allowed), 1 restart, Cap keeping 1 or 2 layers, Commit,
-\* journal, reopen, crash inside Commit, lazy and eager write buffer
+\* pathdb, repaired design, exhaustive, thorough: as quick, updates touch 3 keys, Journal as a separate action (a journal
+\* can be followed by more work and a crash), 2 restarts (stale journals)
+\* measured: 411 905 distinct states, depth 11 (4 min, 4 workers); with all 4 keys: 887 130 states (6 min)
 CONSTANTS
   H = 2
   MaxV = 1
